@@ -108,6 +108,119 @@ type site struct {
 	Uses string `json:"uses"` // for a range: k | v | kv | none (which loop variables are bound)
 }
 
+// a write to state that outlives the function: an assignment / IncDec / in-place builtin or library call whose target is
+// rooted at the receiver, a parameter, a local alias of one of them, or a package-level variable
+type fieldWrite struct {
+	Func   string `json:"func"`   // pkg:Type.Method
+	Root   string `json:"root"`   // recv | param | alias | global
+	Target string `json:"target"` // NamedType.field[.field] of the written location
+	How    string `json:"how"`    // = | ++ | delete | copy | sort | Type.Method() | iface-call Method()
+	Expr   string `json:"expr"`
+	fn     string
+}
+
+// every package-level variable of a package in the import closure of the translation packages
+type pkgVar struct {
+	Pkg       string   `json:"pkg"`
+	Name      string   `json:"name"`
+	Type      string   `json:"type"`
+	Kind      string   `json:"kind"` // immutable-value | func | pointer | map | slice | sync | struct | interface | chan | array
+	WrittenBy []string `json:"written_by"` // every function outside init that assigns it / stores into it / takes its address / calls a pointer method on it
+	ReadBy    int      `json:"read_by_reachable"` // number of reachable translation functions that mention it
+	obj       *types.Var
+}
+
+func typeKind(t types.Type) string {
+	if n, ok := t.(*types.Named); ok && n.Obj().Pkg() != nil {
+		p := n.Obj().Pkg().Path()
+		if p == "sync" || p == "sync/atomic" {
+			return "sync"
+		}
+	}
+	switch u := t.Underlying().(type) {
+	case *types.Basic:
+		return "immutable-value"
+	case *types.Signature:
+		return "func"
+	case *types.Pointer:
+		return "pointer"
+	case *types.Map:
+		return "map"
+	case *types.Slice:
+		return "slice"
+	case *types.Struct:
+		for i := 0; i < u.NumFields(); i++ {
+			if typeKind(u.Field(i).Type()) == "sync" {
+				return "sync"
+			}
+		}
+		return "struct"
+	case *types.Interface:
+		return "interface"
+	case *types.Chan:
+		return "chan"
+	case *types.Array:
+		return "array"
+	}
+	return "other"
+}
+
+func namedOf(t types.Type) string {
+	for {
+		if p, ok := t.(*types.Pointer); ok {
+			t = p.Elem()
+			continue
+		}
+		break
+	}
+	if n, ok := t.(*types.Named); ok {
+		if n.Obj().Pkg() != nil {
+			return strings.TrimPrefix(n.Obj().Pkg().Path(), prefix) + "." + n.Obj().Name()
+		}
+		return n.Obj().Name()
+	}
+	return types.TypeString(t, func(p *types.Package) string { return p.Name() })
+}
+
+// baseIdent: the identifier an lvalue / receiver expression is rooted at, and the field path from it
+func baseIdent(e ast.Expr) (*ast.Ident, []*ast.SelectorExpr) {
+	var path []*ast.SelectorExpr
+	for {
+		switch x := e.(type) {
+		case *ast.ParenExpr:
+			e = x.X
+		case *ast.IndexExpr:
+			e = x.X
+		case *ast.SliceExpr:
+			e = x.X
+		case *ast.StarExpr:
+			e = x.X
+		case *ast.TypeAssertExpr:
+			e = x.X
+		case *ast.UnaryExpr:
+			if x.Op != token.AND {
+				return nil, nil
+			}
+			e = x.X
+		case *ast.SelectorExpr:
+			path = append([]*ast.SelectorExpr{x}, path...)
+			e = x.X
+		case *ast.Ident:
+			return x, path
+		default:
+			return nil, nil
+		}
+	}
+}
+
+func refLike(t types.Type) bool {
+	switch t.Underlying().(type) {
+	case *types.Pointer, *types.Map, *types.Slice, *types.Interface, *types.Chan:
+		return true
+	}
+	return false
+}
+
 const sqlPkg = "github.com/metrico/qryn/reader/utils/sql_select"
 const prefix = "github.com/metrico/qryn/reader/"
 
@@ -197,9 +310,16 @@ func main() {
 	var entries []string
 	curFn := ""
 	var note func(v *types.Var, fn, how string)
+	everyWrite := map[string]map[string]bool{} // package-level variable -> functions outside init that write it
+	curPkgRel := ""
 	noteLater := func(v *types.Var, fn, how string) {
 		if v != nil && curFn != "" {
 			notes[curFn] = append(notes[curFn], pending{v, fn, how})
+			k := v.Pkg().Path() + "." + v.Name()
+			if everyWrite[k] == nil {
+				everyWrite[k] = map[string]bool{}
+			}
+			everyWrite[k][curPkgRel+":"+fn+how] = true
 		}
 	}
 	note = func(v *types.Var, fn, how string) {
@@ -228,6 +348,9 @@ func main() {
 		}
 		return os.Open(f)
 	})
+	allVars := map[string]*pkgVar{}
+	varUses := map[string][]string{}
+	var fwrites []fieldWrite
 	var setCalls, forwards, ranges, others []site
 	npk, nfn, nsqlfn := 0, 0, 0
 	var unchecked []string
@@ -257,36 +380,214 @@ func main() {
 				}
 			}
 		}
+		relPkg := strings.TrimPrefix(p.ImportPath, prefix)
+		curPkgRel = relPkg
+		// package-level variables of this package (with the functions that write them, filled in below)
+		if pk := info.Defs; pk != nil {
+			for id, o := range info.Defs {
+				if v := pkgLevelVar(o); v != nil && id.Name != "_" {
+					allVars[p.ImportPath+"."+v.Name()] = &pkgVar{Pkg: relPkg, Name: v.Name(), Kind: typeKind(v.Type()), obj: v,
+						Type: types.TypeString(v.Type(), func(p *types.Package) string { return p.Name() })}
+				}
+			}
+		}
+		type unit struct {
+			fd   *ast.FuncDecl // nil for the initialiser of a package-level variable
+			body ast.Node
+			name string
+			full string
+			rel  string
+		}
+		var units []unit
 		for _, f := range files {
 			rel, _ := filepath.Rel(repo, fset.Position(f.Pos()).Filename)
 			for _, d := range f.Decls {
+				if gd, ok := d.(*ast.GenDecl); ok && gd.Tok == token.VAR {
+					// a function literal in the initialiser of a package-level variable runs when the variable is called:
+					// a pseudo function, reached from every function that mentions the variable
+					for _, sp := range gd.Specs {
+						vs := sp.(*ast.ValueSpec)
+						for i, val := range vs.Values {
+							hasLit := false
+							ast.Inspect(val, func(n ast.Node) bool {
+								if _, ok := n.(*ast.FuncLit); ok {
+									hasLit = true
+								}
+								return true
+							})
+							if hasLit && i < len(vs.Names) {
+								units = append(units, unit{nil, val, "var " + vs.Names[i].Name, "var:" + p.ImportPath + "." + vs.Names[i].Name, rel})
+							}
+						}
+					}
+					continue
+				}
 				fd, ok := d.(*ast.FuncDecl)
 				if !ok || fd.Body == nil {
 					continue
 				}
-				nfn++
-				name := funcName(fd)
-				isInit := fd.Recv == nil && fd.Name.Name == "init"
-				curFn = ""
+				full := ""
 				if fo, ok := info.Defs[fd.Name].(*types.Func); ok {
-					curFn = fo.FullName()
-					short[curFn] = strings.TrimPrefix(p.ImportPath, prefix) + ":" + name
+					full = fo.FullName()
+				}
+				units = append(units, unit{fd, fd.Body, funcName(fd), full, rel})
+			}
+		}
+		{
+			for _, u := range units {
+				fd, rel, name := u.fd, u.rel, u.name
+				nfn++
+				isInit := fd != nil && fd.Recv == nil && fd.Name.Name == "init"
+				curFn = u.full
+				if curFn != "" {
+					short[curFn] = relPkg + ":" + name
 					edges[curFn] = map[string]bool{}
 					ifaceCalls[curFn] = map[string]bool{}
-					if fd.Recv != nil {
-						byName[fd.Name.Name] = append(byName[fd.Name.Name], curFn)
+				}
+				roots := map[types.Object]string{}
+				recvIsValue := false
+				if fd != nil {
+					if fo, ok := info.Defs[fd.Name].(*types.Func); ok {
+						if fd.Recv != nil {
+							byName[fd.Name.Name] = append(byName[fd.Name.Name], curFn)
+						}
+						if isEntry(relPkg, fd, fo) {
+							entries = append(entries, curFn)
+						}
 					}
-					if isEntry(strings.TrimPrefix(p.ImportPath, prefix), fd, fo) {
-						entries = append(entries, curFn)
+					if fd.Recv != nil {
+						for _, fl := range fd.Recv.List {
+							if _, isPtr := fl.Type.(*ast.StarExpr); !isPtr {
+								recvIsValue = true
+							}
+							for _, nm := range fl.Names {
+								if o := info.Defs[nm]; o != nil {
+									roots[o] = "recv"
+								}
+							}
+						}
+					}
+					if fd.Type.Params != nil {
+						for _, fl := range fd.Type.Params.List {
+							for _, nm := range fl.Names {
+								if o := info.Defs[nm]; o != nil {
+									roots[o] = "param"
+								}
+							}
+						}
+					}
+				}
+				// classify an lvalue-like expression: which long-lived location does a store through it reach?
+				classify := func(e ast.Expr) (string, string, bool) {
+					id, path := baseIdent(e)
+					if id == nil {
+						return "", "", false
+					}
+					o := info.Uses[id]
+					if o == nil {
+						o = info.Defs[id]
+					}
+					if o == nil {
+						return "", "", false
+					}
+					kind, ok := roots[o]
+					if !ok {
+						return "", "", false
+					}
+					_, bare := e.(*ast.Ident)
+					if bare {
+						return "", "", false // rebinding a local name
+					}
+					if kind == "recv" && recvIsValue && len(path) == 1 {
+						if se, ok := e.(*ast.SelectorExpr); ok && se == path[0] {
+							return "", "", false // field of a by-value receiver: a copy
+						}
+					}
+					var names []string
+					for _, se := range path {
+						names = append(names, se.Sel.Name)
+					}
+					owner := namedOf(o.Type())
+					if len(path) > 1 {
+						if tv, ok := info.Types[path[len(path)-1].X]; ok {
+							owner = namedOf(tv.Type)
+							names = names[len(names)-1:]
+						}
+					}
+					tgt := owner + "|"
+					if len(names) > 0 {
+						tgt += strings.Join(names, ".")
+					} else {
+						tgt += "[*]"
+					}
+					return kind, tgt, true
+				}
+				addWrite := func(e ast.Expr, how string, whole ast.Node) {
+					if isInit || curFn == "" {
+						return
+					}
+					if kind, tgt, ok := classify(e); ok {
+						var b bytes.Buffer
+						printer.Fprint(&b, fset, whole)
+						tx := strings.Join(strings.Fields(b.String()), " ")
+						if len(tx) > 90 {
+							tx = tx[:90] + "..."
+						}
+						fwrites = append(fwrites, fieldWrite{Func: relPkg + ":" + name, Root: kind, Target: tgt, How: how, Expr: tx, fn: curFn})
+					}
+				}
+				alias := func(lhs ast.Expr, rhs ast.Expr) {
+					id, ok := lhs.(*ast.Ident)
+					if !ok || id.Name == "_" {
+						return
+					}
+					o := info.Defs[id]
+					if o == nil {
+						o = info.Uses[id]
+					}
+					if o == nil || pkgLevelVar(o) != nil {
+						return
+					}
+					if _, already := roots[o]; already {
+						return
+					}
+					rid, _ := baseIdent(rhs)
+					if rid == nil {
+						return
+					}
+					ro := info.Uses[rid]
+					if ro == nil {
+						return
+					}
+					_, rooted := roots[ro]
+					if !rooted && pkgLevelVar(ro) == nil {
+						return
+					}
+					if refLike(o.Type()) {
+						roots[o] = "alias"
 					}
 				}
 				usesSQL := p.ImportPath == sqlPkg
 				var rs []*ast.RangeStmt
-				ast.Inspect(fd.Body, func(n ast.Node) bool {
+				ast.Inspect(u.body, func(n ast.Node) bool {
 					switch x := n.(type) {
+					case *ast.FuncLit:
+						if x.Type.Params != nil {
+							for _, fl := range x.Type.Params.List {
+								for _, nm := range fl.Names {
+									if o := info.Defs[nm]; o != nil {
+										roots[o] = "param"
+									}
+								}
+							}
+						}
 					case *ast.Ident:
 						if o := info.Uses[x]; o != nil && o.Pkg() != nil && o.Pkg().Path() == sqlPkg {
 							usesSQL = true
+						}
+						if v := pkgLevelVar(info.Uses[x]); v != nil && curFn != "" && strings.HasPrefix(v.Pkg().Path(), prefix) {
+							edges[curFn]["var:"+v.Pkg().Path()+"."+v.Name()] = true
+							varUses[curFn] = append(varUses[curFn], v.Pkg().Path()+"."+v.Name())
 						}
 						if fo, ok := info.Uses[x].(*types.Func); ok && curFn != "" {
 							if rcv := fo.Type().(*types.Signature).Recv(); rcv != nil && types.IsInterface(rcv.Type()) {
@@ -307,6 +608,43 @@ func main() {
 								}
 							}
 						}
+						// in-place builtins and library calls on a long-lived location
+						if id, ok := x.Fun.(*ast.Ident); ok && len(x.Args) > 0 {
+							if _, isB := info.Uses[id].(*types.Builtin); isB && (id.Name == "delete" || id.Name == "copy" || id.Name == "clear") {
+								addWrite(x.Args[0], id.Name, x)
+								if !isInit {
+									noteLater(rootVar(info, x.Args[0]), name, ":"+id.Name+"()")
+								}
+							}
+						}
+						if se, ok := x.Fun.(*ast.SelectorExpr); ok {
+							if pid, ok := se.X.(*ast.Ident); ok && len(x.Args) > 0 {
+								if pn, ok := info.Uses[pid].(*types.PkgName); ok && (pn.Imported().Path() == "sort" || pn.Imported().Path() == "slices") &&
+									(strings.HasPrefix(se.Sel.Name, "Sort") || se.Sel.Name == "Strings" || se.Sel.Name == "Ints" || se.Sel.Name == "Slice" || se.Sel.Name == "Stable" || se.Sel.Name == "Reverse") {
+									addWrite(x.Args[0], pn.Imported().Path()+"."+se.Sel.Name, x)
+									if !isInit {
+										noteLater(rootVar(info, x.Args[0]), name, ":"+pn.Imported().Path()+"."+se.Sel.Name+"()")
+									}
+								}
+							}
+							if sel := info.Selections[se]; sel != nil && sel.Kind() == types.MethodVal {
+								if f, ok := sel.Obj().(*types.Func); ok {
+									rcv := f.Type().(*types.Signature).Recv()
+									outside := f.Pkg() == nil || !strings.HasPrefix(f.Pkg().Path(), prefix)
+									_, ptr := rcv.Type().(*types.Pointer)
+									if outside && ptr {
+										// a pointer-receiver method of a library type (sync.Map.Store, strings.Builder.WriteString ...)
+										addWrite(se.X, namedOf(rcv.Type())+"."+se.Sel.Name+"()", x)
+									}
+									if f.Pkg() != nil && f.Pkg().Path() == sqlPkg && !strings.HasPrefix(se.Sel.Name, "Get") && se.Sel.Name != "String" {
+										// a builder method of sql_select invoked on a STORED object (field of the receiver / a parameter)
+										if _, path := baseIdent(se.X); len(path) > 0 {
+											addWrite(se.X, "sql_select "+se.Sel.Name+"()", x)
+										}
+									}
+								}
+							}
+						}
 						if se, ok := x.Fun.(*ast.SelectorExpr); ok && se.Sel.Name == "SetSetting" {
 							// a SetSetting method that passes its own arguments on is an implementation of the
 							// interface (UnionSelect), not a place where a setting originates
@@ -322,15 +660,27 @@ func main() {
 								noteLater(rootVar(info, l), name, "")
 							}
 						}
+						for _, l := range x.Lhs {
+							addWrite(l, x.Tok.String(), x)
+						}
+						if len(x.Lhs) == len(x.Rhs) {
+							for i := range x.Lhs {
+								alias(x.Lhs[i], x.Rhs[i])
+							}
+						}
 					case *ast.IncDecStmt:
 						if !isInit {
 							noteLater(rootVar(info, x.X), name, "")
 						}
+						addWrite(x.X, x.Tok.String(), x)
 					case *ast.UnaryExpr:
 						if !isInit && x.Op == token.AND {
 							noteLater(rootVar(info, x.X), name, ":&")
 						}
 					case *ast.RangeStmt:
+						if x.Value != nil {
+							alias(x.Value, x.X)
+						}
 						if tv, ok := info.Types[x.X]; ok {
 							if _, isMap := tv.Type.Underlying().(*types.Map); isMap {
 								rs = append(rs, x)
@@ -391,6 +741,61 @@ func main() {
 			note(n.v, short[f], n.how)
 		}
 	}
+	// writes to receiver / parameter / alias rooted locations by reachable functions
+	var rw []fieldWrite
+	seenW := map[string]bool{}
+	for _, w := range fwrites {
+		if !reachFn[w.fn] {
+			continue
+		}
+		k := w.Func + "|" + w.Root + "|" + w.Target
+		if seenW[k] {
+			continue
+		}
+		seenW[k] = true
+		rw = append(rw, w)
+	}
+	sort.Slice(rw, func(i, j int) bool {
+		a, b := rw[i], rw[j]
+		if a.Func != b.Func {
+			return a.Func < b.Func
+		}
+		if a.Target != b.Target {
+			return a.Target < b.Target
+		}
+		return a.How < b.How
+	})
+	// the package-level variables of the packages the translation entry points import (transitively)
+	var pvars []*pkgVar
+	for f := range reachFn {
+		if sh, ok := short[f]; ok {
+			reach[prefix+strings.SplitN(sh, ":", 2)[0]] = true
+		}
+	}
+	for k, pv := range allVars {
+		if !reach[prefix+pv.Pkg] {
+			continue
+		}
+		for f := range everyWrite[k] {
+			pv.WrittenBy = append(pv.WrittenBy, f)
+		}
+		sort.Strings(pv.WrittenBy)
+		for f := range reachFn {
+			for _, u := range varUses[f] {
+				if u == k {
+					pv.ReadBy++
+					break
+				}
+			}
+		}
+		pvars = append(pvars, pv)
+	}
+	sort.Slice(pvars, func(i, j int) bool {
+		if pvars[i].Pkg != pvars[j].Pkg {
+			return pvars[i].Pkg < pvars[j].Pkg
+		}
+		return pvars[i].Name < pvars[j].Name
+	})
 	less := func(a, b site) bool {
 		if a.File != b.File {
 			return a.File < b.File
@@ -446,12 +851,33 @@ func main() {
 		}
 		fmt.Fprintf(&b, "\n  (%s, %s, %s)", coqStr(sv.Pkg), coqStr(sv.Name), coqStr(sv.Type))
 	}
+	b.WriteString("].\n\n(* every package-level variable of the packages in the import closure of the translation packages\n")
+	b.WriteString("   (logql parser / transpiler_v2 / clickhouse_planner / internal_planner / shared, traceql, prof, sql_select, ...):\n")
+	b.WriteString("   (package, variable, type, kind, written outside init by some function, mentioned by a reachable translation function) *)\n")
+	b.WriteString("Definition translation_package_vars : list (string * string * string * string * bool * bool) := [")
+	for i, pv := range pvars {
+		if i > 0 {
+			b.WriteString(";")
+		}
+		fmt.Fprintf(&b, "\n  (%s, %s, %s, %s, %v, %v)", coqStr(pv.Pkg), coqStr(pv.Name), coqStr(pv.Type), coqStr(pv.Kind), len(pv.WrittenBy) > 0, pv.ReadBy > 0)
+	}
+	b.WriteString("].\n\n(* every store by a function reachable from the translation entry points into a location that outlives the call:\n")
+	b.WriteString("   an assignment / ++ / delete / copy / sort / library pointer-method / sql_select builder call whose target is rooted at\n")
+	b.WriteString("   the receiver, a parameter, or a local alias of one: (function, root, type owning the field, field) *)\n")
+	b.WriteString("Definition translation_field_writes : list (string * string * string * string) := [")
+	for i, w := range rw {
+		if i > 0 {
+			b.WriteString(";")
+		}
+		tf := strings.SplitN(w.Target, "|", 2)
+		fmt.Fprintf(&b, "\n  (%s, %s, %s, %s)", coqStr(w.Func), coqStr(w.Root), coqStr(tf[0]), coqStr(tf[1]))
+	}
 	b.WriteString("].\n")
 	if err := os.WriteFile(os.Args[2], []byte(b.String()), 0o644); err != nil {
 		panic(err)
 	}
 	js, _ := json.MarshalIndent(map[string]interface{}{"set_setting_calls": setCalls, "set_setting_forwarders": forwards, "other_map_ranges_in_sql_packages": others, "sql_map_ranges": ranges,
-		"translation_package_state": states, "translation_entry_functions": len(entries), "translation_reachable_functions": len(reachFn), "packages": npk, "functions": nfn, "sql_building_functions": nsqlfn, "packages_not_compiling": unchecked}, "", " ")
+		"translation_package_state": states, "translation_package_vars": pvars, "translation_field_writes": rw, "translation_entry_functions": len(entries), "translation_reachable_functions": len(reachFn), "packages": npk, "functions": nfn, "sql_building_functions": nsqlfn, "packages_not_compiling": unchecked}, "", " ")
 	if err := os.WriteFile(os.Args[3], js, 0o644); err != nil {
 		panic(err)
 	}
